@@ -289,7 +289,7 @@ def _values(m: FuncInfo, c: Canon, e) -> List[Tuple[ast.AST, ast.AST]]:
     return [(e, c.resolve(e))]
 
 
-def index_kinds(ctx, rep, clause):
+def index_kinds(ctx, rep, clause, methods=('reverse', 'slice', 'shift')):
     program = ctx.program
     cls = program.cls(PFA)
     n_ = atom('len')
@@ -303,110 +303,133 @@ def index_kinds(ctx, rep, clause):
             ob(rep, 'KIND', m.fq, f'{what}: {fmt(want)}', got == want, f'{kind} map',
                f'`{norm_stmt(val)[:90]}` computes {fmt(got)}; a {kind} must be mapped to {fmt(want)}', m.loc(node), clause)
 
-    # -- reverse
-    rev = _roles(cls.methods['reverse'])
-    c = Canon(rev.node)
-    _loop, store = _mods_store(rev)
-    expect(rev, c, store.targets[0].slice, padd(padd(n_, atom('p'), -1), const(1), -1),
-           'reverse maps a residue Position p to len-1-p', 'Position')
-    _call, kws = _interval_ctor(rev)
-    expect(rev, c, kws['start'], padd(n_, atom('interval.end'), -1),
-           'reverse maps interval Boundaries (s, e) to (len-e, len-s), new start', 'Boundary')
-    expect(rev, c, kws['end'], padd(n_, atom('interval.start'), -1),
-           'reverse maps interval Boundaries (s, e) to (len-e, len-s), new end', 'Boundary')
-    # -- slice
-    sl = _roles(cls.methods['slice'])
-    c = Canon(sl.node)
-    loop, store = _mods_store(sl)
-    key_ok = epoly(c.resolve(store.targets[0].slice)) == padd(atom('p'), atom('start'), -1)
-    ob(rep, 'KIND', sl.fq, 'slice re-bases a residue Position k to k - start', key_ok, 'Position - Boundary',
-       'the new key of a residue modification is not k - start', sl.loc(store), clause)
-    # the store runs for exactly the keys start <= p < stop: decided over a finite set of orderings of (p, start, stop)
-    tests = [(t, pol) for t, pol in dominating_tests(loop, store)] + \
-            [(t, False) for t in preceding_exits(loop.body, store)]
-    bad = None
-    undecided = False
-    for pv in range(-1, 6):
-        for sv in range(0, 5):
-            for ev in range(0, 6):
-                ge = GuardEval({'p': pv, 'start': sv, 'stop': ev}, c.aliases())
-                runs = True
-                for t, pol in tests:
-                    v = ge.eval(t)
-                    if v is UNK:
-                        undecided = True
-                        continue
-                    if bool(v) != pol:
-                        runs = False
-                if runs != (sv <= pv < ev) and bad is None:
-                    bad = (pv, sv, ev, runs)
-    filt_ok = bad is None and not undecided and bool(tests)
-    ob(rep, 'KIND', sl.fq, 'slice keeps exactly the Positions start <= k < stop', filt_ok, 'half-open range',
-       'the filter on residue-modification keys is not `start <= k < stop`' +
-       (f': for k={bad[0]}, start={bad[1]}, stop={bad[2]} the modification is {"kept" if bad[3] else "dropped"}'
-        if bad else ' (a guard could not be decided over k, start, stop)'), sl.loc(store), clause)
-    # every key is visited: leaving the loop early is only sound over an explicitly ordered iteration
-    exits = [x for x in ast.walk(loop) if isinstance(x, (ast.Break, ast.Return))]
-    ordered = isinstance(loop.iter, ast.Call) and isinstance(loop.iter.func, ast.Name) and loop.iter.func.id == 'sorted'
-    ob(rep, 'KIND', sl.fq, 'slice visits every residue-modification key', not exits or ordered,
-       'no early exit from the loop over the (unordered) position map',
-       f'the loop over self.internal_mods leaves early (`{norm_stmt(exits[0]) if exits else ""}`): the keys of that '
-       f'dict are in insertion order, not residue order (after reverse/shift/add_internal_mod), so modifications '
-       f'filed after a larger position are lost from the piece', sl.loc(exits[0]) if exits else sl.loc(loop), clause)
-    _call, kws = _interval_ctor(sl)
-    expect(sl, c, kws['start'], atom(f'max0({fmt(padd(atom("interval.start"), atom("start"), -1))})'),
-           'slice re-bases an interval Boundary b to max(0, b - start), new start', 'Boundary')
-    expect(sl, c, kws['end'], atom(f'max0({fmt(padd(atom("interval.end"), atom("start"), -1))})'),
-           'slice re-bases an interval Boundary b to max(0, b - start), new end', 'Boundary')
-    # which intervals are kept: the half-open ranges [s, e) and [start, stop) intersect
-    filt = None
-    for node in walk_own(sl.node):
-        if isinstance(node, ast.If) and 'interval.start' in norm_stmt(node.test) and 'interval.end' in norm_stmt(node.test):
-            filt = node
-    atoms = set()
-    if filt is not None:
-        parts = filt.test.values if isinstance(filt.test, ast.BoolOp) and isinstance(filt.test.op, ast.And) else [filt.test]
-        flip = {ast.Lt: '>', ast.Gt: '<', ast.LtE: '>=', ast.GtE: '<='}
-        sym = {ast.Lt: '<', ast.Gt: '>', ast.LtE: '<=', ast.GtE: '>='}
-        for p_ in parts:
-            if isinstance(p_, ast.Compare) and len(p_.ops) == 1 and type(p_.ops[0]) in sym:
-                l, r = norm_stmt(p_.left), norm_stmt(p_.comparators[0])
-                if l.startswith('interval.'):
-                    atoms.add((l, sym[type(p_.ops[0])], r))
-                elif r.startswith('interval.'):
-                    atoms.add((r, flip[type(p_.ops[0])], l))
-    ob(rep, 'KIND', sl.fq, 'slice keeps an interval iff [s, e) intersects [start, stop)',
-       atoms == {('interval.start', '<', 'stop'), ('interval.end', '>', 'start')}, 'interval.start < stop and '
-       'interval.end > start', f'interval filter is {sorted(atoms)}: an interval that only touches the slice at a '
-       f'boundary (e == start or s == stop) is carried into the piece as an empty interval with its modifications',
-       sl.loc(filt) if filt is not None else sl.loc(), clause)
-    cuts = [x for x in walk_own(sl.node) if isinstance(x, ast.Subscript) and isinstance(x.slice, ast.Slice) and
-            norm_stmt(x.value) in ('self.sequence', 'self._sequence')]
-    ob(rep, 'KIND', sl.fq, 'slice cuts the residues with [start:stop]',
-       len(cuts) == 1 and norm_stmt(cuts[0]).endswith('[start:stop]'), 'same half-open range as the keys',
-       f'residues are cut with `{norm_stmt(cuts[0]) if cuts else "?"}`', sl.loc(), clause)
-    # -- shift
-    sh = _roles(cls.methods['shift'])
-    c = Canon(sh.node)
-    _loop, store = _mods_store(sh)
-    amount = atom(f'({fmt(atom("n"))}) mod ({fmt(n_)})')
-    expect(sh, c, store.targets[0].slice, atom(f'({fmt(padd(atom("p"), amount, -1))}) mod ({fmt(n_)})'),
-           'shift maps a Position p to (p - n mod len) mod len', 'Position')
-    rot = None
-    for x in walk_own(sh.node):
-        if isinstance(x, ast.BinOp) and isinstance(x.op, ast.Add) and isinstance(x.left, ast.Subscript) and \
-                isinstance(x.right, ast.Subscript) and isinstance(x.left.slice, ast.Slice) and \
-                isinstance(x.right.slice, ast.Slice):
-            rot = x
-    ok = False
-    if rot is not None:
-        a, b = rot.left, rot.right
-        ok = norm_stmt(a.value) == norm_stmt(b.value) == 'self.sequence' and a.slice.upper is None and \
-            b.slice.lower is None and a.slice.lower is not None and b.slice.upper is not None and \
-            epoly(c.resolve(a.slice.lower)) == amount and epoly(c.resolve(b.slice.upper)) == amount
-    ob(rep, 'KIND', sh.fq, 'shift rotates the residues by the same amount', ok,
-       'residue i moves to (i - n mod len) mod len', 'the residue rotation no longer matches the index map', sh.loc(),
-       clause)
+    if 'reverse' in methods:
+        # -- reverse
+        rev = _roles(cls.methods['reverse'])
+        c = Canon(rev.node)
+        _loop, store = _mods_store(rev)
+        expect(rev, c, store.targets[0].slice, padd(padd(n_, atom('p'), -1), const(1), -1),
+               'reverse maps a residue Position p to len-1-p', 'Position')
+        _call, kws = _interval_ctor(rev)
+        expect(rev, c, kws['start'], padd(n_, atom('interval.end'), -1),
+               'reverse maps interval Boundaries (s, e) to (len-e, len-s), new start', 'Boundary')
+        expect(rev, c, kws['end'], padd(n_, atom('interval.start'), -1),
+               'reverse maps interval Boundaries (s, e) to (len-e, len-s), new end', 'Boundary')
+    if 'slice' in methods:
+        # -- slice
+        sl = _roles(cls.methods['slice'])
+        c = Canon(sl.node)
+        loop, store = _mods_store(sl)
+        key_ok = epoly(c.resolve(store.targets[0].slice)) == padd(atom('p'), atom('start'), -1)
+        ob(rep, 'KIND', sl.fq, 'slice re-bases a residue Position k to k - start', key_ok, 'Position - Boundary',
+           'the new key of a residue modification is not k - start', sl.loc(store), clause)
+        # the store runs for exactly the keys start <= p < stop: decided over a finite set of orderings of (p, start, stop)
+        tests = [(t, pol) for t, pol in dominating_tests(loop, store)] + \
+                [(t, False) for t in preceding_exits(loop.body, store)]
+        bad = None
+        undecided = False
+        for pv in range(-1, 6):
+            for sv in range(0, 5):
+                for ev in range(0, 6):
+                    ge = GuardEval({'p': pv, 'start': sv, 'stop': ev}, c.aliases())
+                    runs = True
+                    for t, pol in tests:
+                        v = ge.eval(t)
+                        if v is UNK:
+                            undecided = True
+                            continue
+                        if bool(v) != pol:
+                            runs = False
+                    if runs != (sv <= pv < ev) and bad is None:
+                        bad = (pv, sv, ev, runs)
+        filt_ok = bad is None and not undecided and bool(tests)
+        ob(rep, 'KIND', sl.fq, 'slice keeps exactly the Positions start <= k < stop', filt_ok, 'half-open range',
+           'the filter on residue-modification keys is not `start <= k < stop`' +
+           (f': for k={bad[0]}, start={bad[1]}, stop={bad[2]} the modification is {"kept" if bad[3] else "dropped"}'
+            if bad else ' (a guard could not be decided over k, start, stop)'), sl.loc(store), clause)
+        # every key is visited: leaving the loop early is only sound over an explicitly ordered iteration
+        exits = [x for x in ast.walk(loop) if isinstance(x, (ast.Break, ast.Return))]
+        ordered = isinstance(loop.iter, ast.Call) and isinstance(loop.iter.func, ast.Name) and loop.iter.func.id == 'sorted'
+        ob(rep, 'KIND', sl.fq, 'slice visits every residue-modification key', not exits or ordered,
+           'no early exit from the loop over the (unordered) position map',
+           f'the loop over self.internal_mods leaves early (`{norm_stmt(exits[0]) if exits else ""}`): the keys of that '
+           f'dict are in insertion order, not residue order (after reverse/shift/add_internal_mod), so modifications '
+           f'filed after a larger position are lost from the piece', sl.loc(exits[0]) if exits else sl.loc(loop), clause)
+        _call, kws = _interval_ctor(sl)
+        expect(sl, c, kws['start'], atom(f'max0({fmt(padd(atom("interval.start"), atom("start"), -1))})'),
+               'slice re-bases an interval Boundary b to max(0, b - start), new start', 'Boundary')
+        expect(sl, c, kws['end'], atom(f'max0({fmt(padd(atom("interval.end"), atom("start"), -1))})'),
+               'slice re-bases an interval Boundary b to max(0, b - start), new end', 'Boundary')
+        # which intervals are kept: the half-open ranges [s, e) and [start, stop) intersect
+        filt = None
+        for node in walk_own(sl.node):
+            if isinstance(node, ast.If) and 'interval.start' in norm_stmt(node.test) and 'interval.end' in norm_stmt(node.test):
+                filt = node
+        atoms = set()
+        if filt is not None:
+            parts = filt.test.values if isinstance(filt.test, ast.BoolOp) and isinstance(filt.test.op, ast.And) else [filt.test]
+            flip = {ast.Lt: '>', ast.Gt: '<', ast.LtE: '>=', ast.GtE: '<='}
+            sym = {ast.Lt: '<', ast.Gt: '>', ast.LtE: '<=', ast.GtE: '>='}
+            for p_ in parts:
+                if isinstance(p_, ast.Compare) and len(p_.ops) == 1 and type(p_.ops[0]) in sym:
+                    l, r = norm_stmt(p_.left), norm_stmt(p_.comparators[0])
+                    if l.startswith('interval.'):
+                        atoms.add((l, sym[type(p_.ops[0])], r))
+                    elif r.startswith('interval.'):
+                        atoms.add((r, flip[type(p_.ops[0])], l))
+        ob(rep, 'KIND', sl.fq, 'slice keeps an interval iff [s, e) intersects [start, stop)',
+           atoms == {('interval.start', '<', 'stop'), ('interval.end', '>', 'start')}, 'interval.start < stop and '
+           'interval.end > start', f'interval filter is {sorted(atoms)}: an interval that only touches the slice at a '
+           f'boundary (e == start or s == stop) is carried into the piece as an empty interval with its modifications',
+           sl.loc(filt) if filt is not None else sl.loc(), clause)
+        cuts = [x for x in walk_own(sl.node) if isinstance(x, ast.Subscript) and isinstance(x.slice, ast.Slice) and
+                norm_stmt(x.value) in ('self.sequence', 'self._sequence')]
+        ob(rep, 'KIND', sl.fq, 'slice cuts the residues with [start:stop]',
+           len(cuts) == 1 and norm_stmt(cuts[0]).endswith('[start:stop]'), 'same half-open range as the keys',
+           f'residues are cut with `{norm_stmt(cuts[0]) if cuts else "?"}`', sl.loc(), clause)
+    if 'shift' in methods:
+        # -- shift
+        sh = _roles(cls.methods['shift'])
+        c = Canon(sh.node)
+        _loop, store = _mods_store(sh)
+        amount = atom(f'({fmt(atom("n"))}) mod ({fmt(n_)})')
+        expect(sh, c, store.targets[0].slice, atom(f'({fmt(padd(atom("p"), amount, -1))}) mod ({fmt(n_)})'),
+               'shift maps a Position p to (p - n mod len) mod len', 'Position')
+        # intervals: the start is the Position of the first covered residue, the end is a Boundary = Position of the last
+        # covered residue + 1, so the end maps through that residue: ((e - 1 - k) mod len) + 1 (a Boundary equal to len
+        # must not be reduced to 0)
+        _call, kws = _interval_ctor(sh)
+        expect(sh, c, kws['start'], atom(f'({fmt(padd(atom("interval.start"), amount, -1))}) mod ({fmt(n_)})'),
+               'shift maps the first covered Position s of an interval to (s - n mod len) mod len', 'Position')
+        expect(sh, c, kws['end'],
+               padd(atom(f'({fmt(padd(padd(atom("interval.end"), const(1), -1), amount, -1))}) mod ({fmt(n_)})'), const(1)),
+               'shift maps the end Boundary e of an interval through its last residue: ((e - 1 - n mod len) mod len) + 1',
+               'Boundary')
+        # a cyclic shift can carry an interval across the end of the sequence; exchanging its bounds then describes the
+        # complementary stretch, not the same residues
+        swaps = [x for x in walk_own(sh.node) if isinstance(x, ast.Assign) and isinstance(x.targets[0], ast.Tuple) and
+                 isinstance(x.value, ast.Tuple) and len(x.value.elts) == 2 and
+                 [norm_stmt(e_) for e_ in x.targets[0].elts] == [norm_stmt(e_) for e_ in reversed(x.value.elts)] and
+                 {norm_stmt(e_) for e_ in x.value.elts} == {norm_stmt(kws['start']), norm_stmt(kws['end'])}]
+        ob(rep, 'KIND', sh.fq, 'shift does not repair a wrapped interval by exchanging its bounds', not swaps,
+           'no start/end exchange', 'an interval that wraps around the end after the rotation gets its start and end '
+           'exchanged: the result covers the complementary residues, and shift(k) followed by shift(-k) is not the identity',
+           sh.loc(swaps[0]) if swaps else sh.loc(), clause)
+        rot = None
+        for x in walk_own(sh.node):
+            if isinstance(x, ast.BinOp) and isinstance(x.op, ast.Add) and isinstance(x.left, ast.Subscript) and \
+                    isinstance(x.right, ast.Subscript) and isinstance(x.left.slice, ast.Slice) and \
+                    isinstance(x.right.slice, ast.Slice):
+                rot = x
+        ok = False
+        if rot is not None:
+            a, b = rot.left, rot.right
+            ok = norm_stmt(a.value) == norm_stmt(b.value) == 'self.sequence' and a.slice.upper is None and \
+                b.slice.lower is None and a.slice.lower is not None and b.slice.upper is not None and \
+                epoly(c.resolve(a.slice.lower)) == amount and epoly(c.resolve(b.slice.upper)) == amount
+        ob(rep, 'KIND', sh.fq, 'shift rotates the residues by the same amount', ok,
+           'residue i moves to (i - n mod len) mod len', 'the residue rotation no longer matches the index map', sh.loc(),
+           clause)
 
 
 def rewritten_fields(ctx, rep, clause):
@@ -475,6 +498,8 @@ def check(ctx, rep):
     an, program = ctx.analyzer, ctx.program
     twins(ctx, rep, 'C11a')
     index_kinds(ctx, rep, 'C11b')
+    from . import C01
+    C01.marker_order(ctx, rep, 'C11b')
     rewritten_fields(ctx, rep, 'C11c')
     effects(ctx, rep, 'C11d')
     sf = 'peptacular.sequence.sequence_funcs'
